@@ -22,5 +22,112 @@ per-axis list of cell centres. -/
 def coordField (m : Mesh) (idx : List Nat) : List Rat :=
   tab m.ndim fun a => (m.cells.getD a []).getD (idx.getD a 0) 0
 
+/-- shape of the array assigned to component `i` of the coordinate field:
+`tuple(n[i] if i == j else 1 for j in range(ndim))` -/
+def coordShape (m : Mesh) (i : Nat) : List Nat := tab m.ndim fun j => if i = j then m.nAt i else 1
+
+/-- NumPy broadcasting of an array of shape `s` in an assignment to a larger array: along an
+axis of length 1 every index reads entry 0 -/
+def coordBcast (s idx : List Nat) : List Nat := tab s.length fun j => if s.getD j 0 = 1 then 0 else idx.getD j 0
+
+/-- code-shaped `Mesh.coordinate_field().array[idx]`: for each component `i`,
+`field.array[..., i] = cells[i].reshape(coordShape i)` (C-order reshape of the 1-d list,
+then broadcast over the other axes) -/
+def coordFieldCode (m : Mesh) (idx : List Nat) : List Rat :=
+  tab m.ndim fun i =>
+    (m.cells.getD i []).getD (flatC (m.coordShape i) (coordBcast (m.coordShape i) idx)) 0
+
+/-! ### the same index ↔ coordinate maps with every arithmetic operation rounded by `fl`
+(`fl` = binary64 rounding for the real code; a parameter here).  The sequence of operations
+is the one of `Mesh.cell`, `Mesh.index2point`, `Mesh.point2index` and `Region.__contains__`. -/
+
+/-- `Mesh.cell[a]` as computed: `fl(fl(pmax − pmin) / n)` (`n` is converted exactly) -/
+def cellAtFl (fl : Rat → Rat) (m : Mesh) (a : Nat) : Rat :=
+  fl (fl (m.region.hi a - m.region.lo a) / (m.nAt a : Rat))
+
+/-- `(point − pmin) / cell` as computed -/
+def quotAxFl (fl : Rat → Rat) (m : Mesh) (a : Nat) (x : Rat) : Rat :=
+  fl (fl (x - m.region.lo a) / m.cellAtFl fl a)
+
+/-- `clip(floor(·).astype(int), 0, n − 1)` of the computed quotient (`floor`, the conversion and `clip` are exact) -/
+def indexAxFl (fl : Rat → Rat) (m : Mesh) (a : Nat) (x : Rat) : Nat :=
+  (clipInt (m.quotAxFl fl a x).floor 0 ((m.nAt a : Int) - 1)).toNat
+
+/-- `pmin + (index + 0.5) * cell` as computed (`index + 0.5` is exact below 2^52) -/
+def centreAxFl (fl : Rat → Rat) (m : Mesh) (a : Nat) (i : Int) : Rat :=
+  fl (m.region.lo a + fl (((i : Rat) + 1/2) * m.cellAtFl fl a))
+
 end Mesh
+
+namespace Region
+
+/-- `np.isclose(a, b, rtol, atol)` as computed: `|fl(a − b)| ≤ fl(atol + fl(rtol·|b|))` -/
+def iscloseFl (fl : Rat → Rat) (a b rtol atol : Rat) : Bool :=
+  decide (absR (fl (a - b)) ≤ fl (atol + fl (rtol * absR b)))
+
+/-- `np.min(self.edges) * self.tolerance_factor` as computed -/
+def atolFl (fl : Rat → Rat) (r : Region) : Rat :=
+  fl (listMin (tab r.ndim fun a => fl (r.hi a - r.lo a)) * r.tol)
+
+def containsAxFl (fl : Rat → Rat) (r : Region) (a : Nat) (x : Rat) : Bool :=
+  (decide (r.lo a ≤ x) || iscloseFl fl (r.lo a) x r.tol (r.atolFl fl)) &&
+  (decide (x ≤ r.hi a) || iscloseFl fl (r.hi a) x r.tol (r.atolFl fl))
+
+def containsPtFl (fl : Rat → Rat) (r : Region) (p : List Rat) : Bool :=
+  decide (p.length = r.ndim) && allLt r.ndim fun a => r.containsAxFl fl a (p.getD a 0)
+
+end Region
+
+namespace Mesh
+
+/-- `Mesh.point2index` with rounded arithmetic -/
+def point2indexFl (fl : Rat → Rat) (m : Mesh) (p : List Rat) : M (List Nat) :=
+  if p.length ≠ m.ndim then .error .value
+  else if !m.region.containsPtFl fl p then .error .value
+  else .ok (tab m.ndim fun a => m.indexAxFl fl a (p.getD a 0))
+
+/-- `Mesh.index2point` with rounded arithmetic -/
+def index2pointFl (fl : Rat → Rat) (m : Mesh) (idx : List Int) : M (List Rat) :=
+  if idx.length ≠ m.ndim then .error .index
+  else if !allLt m.ndim (fun a => decide (0 ≤ idx.getD a 0) && decide (idx.getD a 0 < (m.nAt a : Int)))
+    then .error .index
+  else .ok (tab m.ndim fun a => m.centreAxFl fl a (idx.getD a 0))
+
+end Mesh
+
+/-- `np.linspace(a, b, n)` as computed: `delta = fl(b − a)`, `step = fl(delta/(n − 1))`,
+`y_j = fl(fl(j·step) + a)`, and the last entry is overwritten with `b` -/
+def linspaceFl (fl : Rat → Rat) (a b : Rat) (n : Nat) : List Rat :=
+  if n = 1 then [a]
+  else tab n fun j => if j + 1 = n then b else fl (fl ((j : Rat) * fl (fl (b - a) / ((n : Rat) - 1))) + a)
+
+namespace Mesh
+
+/-- `Mesh.cells` as computed -/
+def cellsFl (fl : Rat → Rat) (m : Mesh) : List (List Rat) :=
+  tab m.ndim fun a =>
+    linspaceFl fl (fl (m.region.lo a + fl (m.cellAtFl fl a / 2))) (fl (m.region.hi a - fl (m.cellAtFl fl a / 2))) (m.nAt a)
+
+/-- `Mesh.vertices` as computed -/
+def verticesFl (fl : Rat → Rat) (m : Mesh) : List (List Rat) :=
+  tab m.ndim fun a => linspaceFl fl (m.region.lo a) (m.region.hi a) (m.nAt a + 1)
+
+end Mesh
+
+/-- `np.prod` of a non-empty 1-d array as computed: sequential, `acc = fl(acc·x)` from the left -/
+def prodFl (fl : Rat → Rat) : List Rat → Rat
+  | [] => 1
+  | x :: xs => xs.foldl (fun acc y => fl (acc * y)) x
+
+/-- `Mesh.dV` as computed: `np.prod(self.cell)` -/
+def Mesh.dVFl (fl : Rat → Rat) (m : Mesh) : Rat := prodFl fl (tab m.ndim (m.cellAtFl fl))
+
+/-- `Region.volume` of a float-cornered region as computed: `np.prod(self.edges)` -/
+def Region.volumeFl (fl : Rat → Rat) (r : Region) : Rat := prodFl fl (tab r.ndim fun a => fl (r.hi a - r.lo a))
+
+/-- odometer successor of a multi-index, first dimension fastest (spec of the iteration order) -/
+def succF : List Nat → List Nat → List Nat
+  | n :: ns, i :: is => if i + 1 < n then (i + 1) :: is else 0 :: succF ns is
+  | _, _ => []
+
 end DFV
